@@ -15,6 +15,7 @@ TX_IFACE = {"pkgpath": "github.com/ProtonMail/gluon/db", "iface": "Transaction"}
 COMPONENTS = {
     "state_export": {"dir": "internal/state", "pkgname": "state", "files": ["zz_verif_fixture.go", "zz_verif_export.go"], "vsym": True,
                      "gen_stubs": [dict(TX_IFACE, type="verifTxBase")]},
+    "backend_export": {"dir": "internal/backend", "pkgname": "backend", "files": ["zz_verif_export.go"], "vsym": False},
     "verifdb": {"dir": "internal/verifdb", "pkgname": "verifdb", "files": ["db.go", "tx.go"], "vsym": True,
                 "gen_stubs": [dict(TX_IFACE, type="txBase")]},
 }
@@ -147,9 +148,13 @@ CHECKS["C12"] = {
         {"name": "headerparser", "pkg": "rfc822", "pkgname": "rfc822", "entry": "VerifHeaderParser", "files": ["zz_verif_rfc822.go"],
          "params": {"quick": grid(n=[0, 1, 2, 3, 4, 5]), "thorough": grid(n=list(range(0, 9)))}, "cover": []},
         {"name": "boundary", "pkg": "rfc822", "pkgname": "rfc822", "entry": "VerifBoundaryScanner", "files": ["zz_verif_rfc822.go"],
-         "params": {"quick": grid(n=[0, 1, 2, 3, 4, 5, 6]), "thorough": grid(n=list(range(0, 10)))}, "cover": []},
+         "params": {"quick": grid(n=[0, 1, 2, 3, 4, 5, 6]) + grid(n=[0], tmpl=[3]), "thorough": grid(n=list(range(0, 10))) + grid(n=[0], tmpl=[3, 4])}, "cover": []},
+        {"name": "nested", "pkg": "rfc822", "pkgname": "rfc822", "entry": "VerifSectionsNested", "files": ["zz_verif_rfc822.go"],
+         "params": {"quick": grid(g=[0, 1]), "thorough": grid(g=[2, 3])}, "cover": ["nested-child"]},
         {"name": "sections", "pkg": "rfc822", "pkgname": "rfc822", "entry": "VerifSections", "files": ["zz_verif_rfc822.go"],
          "params": {"quick": grid(n=[0, 3, 5, 6]), "thorough": grid(n=list(range(0, 9)))}, "cover": []},
+        {"name": "paramlist", "pkg": "imap", "pkgname": "imap", "entry": "VerifC12ParamString", "files": ["zz_verif_c12.go"],
+         "params": {"quick": grid(n=[0, 1, 2], n2=[1]), "thorough": grid(n=[0, 1, 2, 3], n2=[0, 1, 2])}, "cover": []},
         {"name": "nesting", "pkg": "rfc5322", "pkgname": "rfc5322", "entry": "VerifC12Nesting", "files": ["zz_verif_c12.go"],
          "params": {"quick": grid(k=[64], amplify=[8000000]), "thorough": grid(k=[64, 128], amplify=[8000000])},
          "cover": ["nesting-run"], "max_depth": 1000, "replay_accept_crash": True, "replay_timeout_s": 300},
@@ -223,6 +228,11 @@ CHECKS["C14"] = {
         {"name": "namespace", "pkg": "internal/state", "pkgname": "state", "entry": "VerifC14Namespace",
          "files": ["zz_verif_c14.go", "zz_verif_c17.go"] + STATE_FILES, "with": ["verifdb"], "gen_stubs": [TX_STUB],
          "params": {"quick": grid(k=[1, 2]), "thorough": grid(k=[3])}, "cover": []},
+        {"name": "list", "pkg": "internal/state", "pkgname": "state", "entry": "VerifC14List",
+         "files": ["zz_verif_c14.go", "zz_verif_c17.go"] + STATE_FILES, "with": ["verifdb"], "gen_stubs": [TX_STUB],
+         "params": {"quick": [{}], "thorough": [{}]}, "cover": ["list-done"]},
+        {"name": "decode", "pkg": "internal/session", "pkgname": "session", "entry": "VerifC14Decode", "files": ["zz_verif_c14.go"],
+         "with": ["backend_export"], "params": {"quick": [{}], "thorough": [{}]}, "cover": ["decoded"]},
     ],
     "stubs": ["internal/verifdb relational model (UNIQUE name / remote id)", "state.Connector stub: CreateMailbox returns a fresh remote id"],
     "outside": ["LIST/LSUB wildcard matching: match() compiles the pattern to a regexp and runs the std regexp engine - not encodable within reach, so 'LIST returns exactly the names RFC 3501 selects' is not decided", "modified UTF-7 names", "connector-side mailbox updates (see C06)"],
@@ -243,13 +253,19 @@ CHECKS["C15"] = {
     "assumptions": ["view UIDs strictly ascending and non-zero"],
 }
 
-C10_FILES = ["zz_verif_c10.go", "zz_verif_reader.go"]
+C10_FILES = ["zz_verif_c10.go", "zz_verif_c10b.go", "zz_verif_reader.go"]
 
 CHECKS["C10"] = {
     "explanation": "The harness is a printer: it builds the byte string of a command from an abstract command whose leaves are symbolic (tag bytes, letter case of every keyword character, each string argument in atom / quoted / literal encoding with symbolic payload bytes, digit strings, sequence sets, optional short reads), feeds it through command.Parser.Parse (real go/ssa of imap/command and rfcparser) and compares the result with the abstract command.",
     "harnesses": [
         {"name": "strings", "pkg": "imap/command", "pkgname": "command", "entry": "VerifC10Strings", "files": C10_FILES,
-         "params": {"quick": grid(len=[1, 2], chunked=[0]) + grid(len=[2], chunked=[1]), "thorough": grid(len=[1, 2, 3, 5], chunked=[0, 1])},
+         "params": {"quick": grid(cmd=[1], symcase=[1], symtag=[0], len=[1], chunked=[0]) + grid(cmd=[1], symcase=[0], symtag=[1], len=[1], chunked=[0]) + grid(cmd=[1], symcase=[0], symtag=[0], len=[1, 2, 3], chunked=[0]) + grid(cmd=[0, 8], symcase=[0], symtag=[0], len=[1], chunked=[0], bigset=[1]) + grid(cmd=[1], symcase=[0], symtag=[0], len=[2], chunked=[1]), "thorough": grid(cmd=[-1], symcase=[0,1], symtag=[0], len=[1, 2, 3, 5], chunked=[0, 1])},
+         "summarise": SCAN_SUMMARISE, "cover": []},
+        {"name": "fetch", "pkg": "imap/command", "pkgname": "command", "entry": "VerifC10Fetch", "files": C10_FILES,
+         "params": {"quick": grid(natt=[0, 1], fam=[0], symcase=[1]) + grid(natt=[1], fam=[1], flen=[0], symcase=[0]), "thorough": grid(natt=[0, 1, 2], fam=[0], symcase=[1], symset=[0, 1]) + grid(natt=[1], fam=[1], flen=[0, 1, 2], symcase=[0, 1]) + grid(natt=[2], fam=[1], flen=[0], symcase=[0])},
+         "summarise": SCAN_SUMMARISE, "cover": []},
+        {"name": "store", "pkg": "imap/command", "pkgname": "command", "entry": "VerifC10Store", "files": C10_FILES,
+         "params": {"quick": grid(nflags=[0, 1], symcase=[1]) + grid(nflags=[2], symcase=[0]), "thorough": grid(nflags=[0, 1, 2], symcase=[1], symset=[0, 1]) + grid(nflags=[3], symcase=[0])},
          "summarise": SCAN_SUMMARISE, "cover": []},
     ],
     "stubs": ["rfcparser.Reader -> fixed buffer, optional symbolic short reads"],
